@@ -316,6 +316,10 @@ fn execute_plan_here(world: &dyn World, plan: &Plan, trace: bool) -> (Outcome, O
             plan.get_or("place_pad_bytes", 0) as u32,
         );
     }
+    if use_arena && plan.get_or("reuse", 0) != 0 {
+        // this run's allocator hands freed blocks out again (address re-use, alloc.rs)
+        alloc::set_reuse(true);
+    }
     IN_RUN.set(true);
     PANIC_MSG.with(|p| *p.borrow_mut() = None);
     let out_arena = {
